@@ -25,6 +25,7 @@ class Exploration:
         self.samples = []
         self.cap_hit = False
         self.total = 0
+        self.extras = []
 
     def add(self, case, res):
         self.evaluations += 1
@@ -36,6 +37,8 @@ class Exploration:
         if res.get("nontrivial", True):
             self.nontrivial_cases += 1
             self.nontrivial_behaviours.add(hash(b))
+        if res.get("extra") is not None and len(self.extras) < 200:
+            self.extras.append(res["extra"])
         for k, v in (res.get("stats") or {}).items():
             self.stats[k] = self.stats.get(k, 0) + v
         for v in res.get("violations") or []:
